@@ -706,12 +706,16 @@ def dict_emission(fdef):
     """The per-item emission of a function that builds one dictionary from one iteration, written either as a dict comprehension or as
     `d = {}; for T in IT: <guards>; d[K] = V`.  Returns dict(key, value, conds (list of condition expressions that all hold when the item
     is emitted), iter, target, node) or None."""
+    def conjuncts(t):
+        if isinstance(t, ast.BoolOp) and isinstance(t.op, ast.And):
+            return [x for v in t.values for x in conjuncts(v)]
+        return [t]
     comps = [c for c in walk_no_nested(fdef) if isinstance(c, ast.DictComp)]
     if len(comps) == 1 and len(comps[0].generators) == 1:
         c = comps[0]
         conds = []
         for t in c.generators[0].ifs:
-            conds.extend(t.values if isinstance(t, ast.BoolOp) and isinstance(t.op, ast.And) else [t])
+            conds.extend(conjuncts(t))
         return {'key': c.key, 'value': c.value, 'conds': conds, 'iter': c.generators[0].iter, 'target': c.generators[0].target, 'node': c}
     for l in walk_no_nested(fdef):
         if not isinstance(l, ast.For):
@@ -726,7 +730,7 @@ def dict_emission(fdef):
             if not pol:
                 from .normalize import push_not
                 e = ast.fix_missing_locations(ast.copy_location(push_not(t), t))
-            conds.extend(e.values if isinstance(e, ast.BoolOp) and isinstance(e.op, ast.And) else [e])
+            conds.extend(conjuncts(e))
         return {'key': s.targets[0].slice, 'value': s.value, 'conds': conds, 'iter': l.iter, 'target': l.target, 'node': s}
     return None
 
